@@ -32,6 +32,8 @@ def gen_selector(rng, total=False, quarantine=()):
             while f in chain and len(set(chain)) < len(FNS):
                 f = rng.choice(FNS)
         chain.append(f)
+    if depth > 1 and rng.random() < 0.15:
+        chain[0] = "E"  # the outermost function survives failures below it and carries on
     used_alias = set()
     levels = []
     focus = None
@@ -136,8 +138,19 @@ def gen(rng, tier, quarantine=(), total=False, inv="C03.embeddings"):
     if failing:
         # a subscriber of one probe fails on its k-th event / record: the call it strikes is cut
         # short; what the calls after it produce is reported exactly as before
-        ops.append({"op": "stage", "id": f"p{rng.randrange(nprobes)}", "kind": "whole", "cap": None,
-                    "raises": rng.randint(1, 5)})
+        victim = f"p{rng.randrange(nprobes)}"
+        if not total and rng.random() < 0.6:
+            # ... the failing one being a total probe on the outermost function of a chain: it fails
+            # while that call is being wound up
+            f0 = [op for op in ops if op["op"] == "mk"][-1]["sels"][0]["levels"][0]["fn"]
+            v0 = rng.choice(local_vars(f0))
+            ops.append({"op": "mk", "id": "t0", "raw": True, "nojudge": True, "inv": inv,
+                        "sels": [{"levels": [{"fn": f0, "caps": [{"var": v0, "as": v0 + "t"}], "sibs": []}],
+                                  "focus": None, "mode": "total"}]})
+            ops.append({"op": "enter", "id": "t0"})
+            victim = "t0"
+        ops.append({"op": "stage", "id": victim, "kind": "whole", "cap": None,
+                    "raises": rng.randint(1, 3 if victim == "t0" else 5)})
     for c in range(rng.randint(1, 3) + (2 if failing else 0)):
         r = rng.random()
         entry = first if r < 0.55 else ("S" if r < 0.7 else rng.choice(FNS + ["M"]))
@@ -150,7 +163,7 @@ def gen(rng, tier, quarantine=(), total=False, inv="C03.embeddings"):
                 "faults": gen_faults(rng, 60, rng.choice([0, 0, 0, 1, 2])),
             }
         )
-    return {"prog": "calltree", "ops": ops}
+    return {"prog": "calltree", "ops": ops, "exact_failures": True}
 
 
 def run(scenario):
